@@ -650,7 +650,7 @@ def wf_status():
     res = {}
     for i, c in zip(ids, cases):
         if c["cfg"].get("error"):
-            res[(c["algo"], c["fam"])] = False
+            res[(c["algo"], c["fam"])] = None          # not translated: nothing to say about well-formedness
         else:
             res[(c["algo"], c["fam"])] = " wf=true" in out.get(i, "").split(" | ")[0]
     return res
@@ -732,13 +732,15 @@ def c15_start(rep, tier):
     t0 = time.time()
     ok, broken = coq_step(rep, only=("C06_lanes_every_configuration_wf", "C15_lanes_packed_len_fits"))
     wf = wf_status()
-    bad = sorted(p for p, v in wf.items() if not v)
+    bad = sorted(p for p, v in wf.items() if v is False)          # extracted, and not cfg_wf
+    untr = sorted("%s/%s: %s" % (e["algo"], e["fam"], e["error"]) for e in cfgs() if e.get("error"))
+    sus = set(bad) | {(e["algo"], e["fam"]) for e in cfgs() if e.get("error")}
     jobs = []
     for e in cfgs():
         if not e["mgr"]:
             continue
         p = (e["algo"], e["fam"])
-        if p in bad:
+        if p in sus:
             jobs += [(e, ln, why) for ln, why in length_points(e, True)]
         elif tier == "thorough":
             # (2^32-B on every pair is C15's own part (iii) in the thorough tier)
@@ -751,9 +753,9 @@ def c15_start(rep, tier):
                     jobs.append((e, ln, why))
     if tier == "quick":
         for e in quick_rotation():
-            if (e["algo"], e["fam"]) not in bad:
+            if (e["algo"], e["fam"]) not in sus:
                 jobs += [(e, ln, why) for ln, why in length_points(e, False)]
-    return {"h": length_jobs(jobs) if jobs else None, "ok": ok, "broken": broken, "bad": bad, "njobs": len(jobs),
+    return {"h": length_jobs(jobs) if jobs else None, "ok": ok, "broken": broken, "bad": bad, "untr": untr, "njobs": len(jobs),
             "coq_s": round(time.time() - t0, 1)}
 
 
@@ -775,12 +777,14 @@ def c15_finish(st, rep, failures, timing=None):
     rep.notes["lane_packed_length"] = {
         "single_submits": ["%s/%s %d (%s)%s" % (c["algo"], c["fam"], ln, why, " FAILED: " + r if r else "") for c, _, ln, why, r, _ in res],
         "configurations_not_cfg_wf": ["%s/%s" % p for p in st["bad"]],
+        "families_not_translated": st["untr"],
         "rule": "quick: the pair with the tightest packed lens[] word + 2 rotating pairs, one submit of (limit - B) and one of 3/4 limit bytes "
                 "(limit = min(2^(W-shift) * B, 2^32)); every pair whose regenerated configuration is not cfg_wf (and every pair in the thorough tier): "
                 "2^(W-shift) blocks if below 2^32 bytes, 2^32-B, 2^31; digests against hashlib"}
-    if (not st["ok"] or st["bad"]) and not nfail and not rep.violations:
+    if (not st["ok"] or st["bad"] or st["untr"]) and not nfail and not rep.violations:
         rep.violation("lane level: %s; no single submit at the limits of the packed length word fails" % (
-            "regenerated configuration not cfg_wf for %s" % st["bad"] if st["bad"] else "Coq obligation no longer checks: %s" % st["broken"]),
+            "source construct not understood by tr/lane_cfg.py (no configuration extracted, nothing claimed about it): %s" % "; ".join(st["untr"])[:400] if st["untr"] else
+            "regenerated configuration not cfg_wf for %s" % ["%s/%s" % p for p in st["bad"]] if st["bad"] else "Coq obligation no longer checks: %s" % st["broken"]),
             {"theorem_or_file": st["broken"] or "Gen/LaneCfgGen.v:gen_lane_cfgs_wf", "correspondence": "%d single submits clean" % len(res)}, no_input=True)
     return nfail
 
